@@ -84,8 +84,8 @@ example : SepCfg ⟨featsRadixFormat, fmtHexUniLT, false⟩ { exp := 112 } := by
 /-- hex float with base prefix `x` and L+T separators (`c13_hex_uni_lt` + prefix): `0x_1_.8p1_z` → count 10 -/
 def fmtHexUniLTPrefix : Format := ⟨0xa0210007800005f000001f80000000c⟩
 
-example : SepCfg ⟨featsRadixFormat, fmtHexUniLTPrefix, false⟩ { exp := 112 } := by
-  apply sepCfg_of _ { exp := 112 } ⟨rfl, fun k => by cases k <;> decide +kernel⟩ <;> decide +kernel
+/- With the repaired base-prefix phase modelled (`Model.prefixRepair = true`) the class `SepCfg` excludes base prefixes
+(`SepCfg.preRep`): separator + prefix formats are covered by the evaluation below and by the correspondence only. -/
 
 example : fmtHexUniLTPrefix.basePrefix = 120 ∧ formatError featsRadixFormat fmtHexUniLTPrefix = none ∧
     parseFloatSyntax ⟨featsRadixFormat, fmtHexUniLTPrefix, false⟩ { exp := 112 } true
@@ -162,10 +162,11 @@ theorem partial_prefix_sep_model_number (feats : Features) (fmt : Format) (o : P
       (some fmt.digitSeparator) = false)
     (hpre : matchByte (⟨feats, fmt, false⟩ : Cfg).basePrefix (⟨feats, fmt, false⟩ : Cfg).caseSensitiveBasePrefix
       (some fmt.digitSeparator) = false)
+    (hprr : prefixRepair = true → fmt.basePrefix = 0)
     (h : parseFloatSyntax ⟨feats, fmt, false⟩ o true s = .ok (.number x cnt)) :
     parseFloatModel feats fmt o true f s = renderParsed ⟨feats, fmt, false⟩ f true (.number x cnt) ∧
     parseFloatModel feats fmt o false f (s.take cnt) = renderParsed ⟨feats, fmt, false⟩ f false (.number x cnt) := by
-  have H := sepCfg_of_valid feats fmt o hfeat hf h1 h2 h3 hsep hexpc hsuf hpre
+  have H := sepCfg_of_valid feats fmt o hfeat hf h1 h2 h3 hsep hexpc hsuf hpre hprr
   have hc := partial_prefix_sep_number ⟨feats, fmt, false⟩ o s x cnt H (expRadixOK_of _ hexp) hm h
   rw [parseFloatModel_of_valid feats fmt o true f s false h1 h2 h3 h4,
     parseFloatModel_of_valid feats fmt o false f _ false h1 h2 h3 h4, h, hc]
@@ -262,12 +263,13 @@ theorem partial_prefix_sep_model (feats : Features) (fmt : Format) (o : POpts) (
       (some fmt.digitSeparator) = false)
     (hpre : matchByte (⟨feats, fmt, false⟩ : Cfg).basePrefix (⟨feats, fmt, false⟩ : Cfg).caseSensitiveBasePrefix
       (some fmt.digitSeparator) = false)
+    (hprr : prefixRepair = true → fmt.basePrefix = 0)
     (hr18 : fmt.mantissaRadix ≤ 18) (hdp : o.dp ≠ 73 ∧ o.dp ≠ 105 ∧ o.dp ≠ 78 ∧ o.dp ≠ 110)
     (hsl : fmt.digitSeparator ≠ 73 ∧ fmt.digitSeparator ≠ 105 ∧ fmt.digitSeparator ≠ 78 ∧ fmt.digitSeparator ≠ 110)
     (h : parseFloatSyntax ⟨feats, fmt, false⟩ o true s = .ok q) :
     parseFloatModel feats fmt o true f s = renderParsed ⟨feats, fmt, false⟩ f true q ∧
     parseFloatModel feats fmt o false f (s.take (pcount q)) = renderParsed ⟨feats, fmt, false⟩ f false q := by
-  have H := sepCfg_of_valid feats fmt o hfeat hf h1 h2 h3 hsep hexpc hsuf hpre
+  have H := sepCfg_of_valid feats fmt o hfeat hf h1 h2 h3 hsep hexpc hsuf hpre hprr
   have hh : SpecialHeadsOK ⟨feats, fmt, false⟩ o := specialHeadsOK_of_valid _ _ h1 hr18 hdp
   have hhs : SpecialHeadsNoSep ⟨feats, fmt, false⟩ o :=
     specialHeadsNoSep_of_valid _ _ h1 (by simpa [Cfg.digitSeparator, hf] using hsl)
@@ -309,10 +311,11 @@ theorem partial_prefix_sep_full_partial (feats : Features) (fmt : Format) (o : P
       (some fmt.digitSeparator) = false)
     (hpre : matchByte (⟨feats, fmt, false⟩ : Cfg).basePrefix (⟨feats, fmt, false⟩ : Cfg).caseSensitiveBasePrefix
       (some fmt.digitSeparator) = false)
+    (hprr : prefixRepair = true → fmt.basePrefix = 0)
     (hsl : fmt.digitSeparator ≠ 73 ∧ fmt.digitSeparator ≠ 105 ∧ fmt.digitSeparator ≠ 78 ∧ fmt.digitSeparator ≠ 110)
     (h : parseFloatSyntax ⟨feats, fmt, false⟩ o true s = .ok p) :
     parseFloatSyntax ⟨feats, fmt, false⟩ o false (s.take (pcount p)) = .ok p :=
-  partial_prefix_sep _ o s p (sepCfg_of_valid feats fmt o hfeat hf h1 h2 h3 hsep hexpc hsuf hpre)
+  partial_prefix_sep _ o s p (sepCfg_of_valid feats fmt o hfeat hf h1 h2 h3 hsep hexpc hsuf hpre hprr)
     (expRadixOK_of _ hexp) hm hh
     (specialHeadsNoSep_of_valid _ _ h1 (by simpa [Cfg.digitSeparator, hf] using hsl)) h
 
